@@ -69,7 +69,7 @@ TABLE = [
     ("chained_assign", ["a = b = x", "return a + b"]),
     ("bare_annotation", ["a: int", "a = x", "return a"]),
     ("annotated_assign", ["a: int = x", "return a"]),
-    ("annotated_assign_wrong_type_used", ["a: float = x", "return int(a)"]),
+    ("annotated_assign_wrong_type_used", ["# enumerate: x     (an int -> float -> int round trip of the input: enumerated by the solver)", "a: float = x", "return int(a)"]),
     ("aug_assign_ops", ["a = x", "a += 1", "a -= y", "a *= 2", "return a"]),
     ("aug_assign_floordiv_mod", ["a = x + 10", "a //= 3", "a %= 5", "return a"]),
     ("aug_assign_bitops", ["a = 13", "a &= 6", "a |= 1", "a ^= 3", "return a + x"]),
